@@ -295,6 +295,57 @@ func runC08(c *Ctx) {
 	}
 	c.Floor("C08.L4-one-outcome", 3)
 
+	// ---- L7 an announcement that passed the receiver's check is handed on: the check marks its CID as seen, so from
+	// there every way out of the delivery routine goes through the hand-over to Next (whose other alternatives are the
+	// receiver closing and the caller giving up). A return in between — say, on a failed republication — leaves the
+	// CID marked although nobody was told: the retry is dropped as a duplicate and the head is never synced.
+	if dl := c.Role("announce.deliver"); dl == nil {
+		c.Unk("C08.L7-accepted-announcement-handed-on", "announce › delivery routine", token.NoPos, "not found")
+	} else {
+		var sel *ssa.Select
+		instrs(dl, func(in ssa.Instruction) {
+			if sl, ok := in.(*ssa.Select); ok {
+				for _, st := range sl.States {
+					if st.Dir == types.SendOnly && strings.HasSuffix(st.Send.Type().String(), "announce.Announce") {
+						sel = sl
+					}
+				}
+			}
+		})
+		n := 0
+		if sel != nil {
+			for _, cs := range c.Calls(dl, Any()) {
+				call, isCall := cs.In.(*ssa.Call)
+				if !isCall || cs.Fn != dl {
+					continue
+				}
+				callee := call.Call.StaticCallee()
+				if callee == nil || !samePkgBody(dl, callee) || callee.Signature.Results().Len() != 1 || !isErrorType(callee.Signature.Results().At(0).Type()) {
+					continue
+				}
+				if _, g := c.Guarded(sel, EqNil(Is(c.E(call))), true); !g {
+					continue
+				}
+				n++
+				ok, path := pathsFromPass(call, func(in ssa.Instruction) bool {
+					if in == ssa.Instruction(sel) {
+						return true
+					}
+					if _, isRet := in.(*ssa.Return); isRet {
+						_, failed := c.GuardedB(in.Block(), EqNil(Is(c.E(call))), false)
+						return failed
+					}
+					return false
+				})
+				c.Check(ok, "C08.L7-accepted-announcement-handed-on", c.short(dl.String())+" › after "+c.short(callee.String())+" accepts", call.Pos(),
+					"every way on from the accepted check reaches the hand-over select", "the delivery routine can return after the announcement was accepted (its CID marked as seen) without handing it on ("+path+"): the announcement is lost and its repetition is dropped as a duplicate")
+			}
+		}
+		if n == 0 {
+			c.Unk("C08.L7-accepted-announcement-handed-on", c.short(dl.String()), dl.Pos(), "no check followed by a hand-over select found in the delivery routine")
+		}
+		c.Floor("C08.L7-accepted-announcement-handed-on", 1)
+	}
 	// ---- L5 atomic section (known finding F15) -----------------------------------------------------
 	c08AtomicSection(c, all)
 }
@@ -322,6 +373,20 @@ func c08Goroutine(c *Ctx, g, handler *ssa.Function) {
 			if in.Common().StaticCallee() == handler {
 				take = in
 			}
+			// the acquire may sit in a step helper of the package ("acquire a slot"): the call is the acquire
+			if callee := in.Common().StaticCallee(); callee != nil && callee != handler && samePkgBody(g, callee) && acquire == nil {
+				if _, isDefer := in.(*ssa.Defer); !isDefer {
+					instrs(callee, func(o ssa.Instruction) {
+						if sel, ok := o.(*ssa.Select); ok {
+							for _, st := range sel.States {
+								if y := c.E(st.Chan); y.Op == "field" && y.Name == "syncSem" && st.Dir == types.SendOnly {
+									acquire = in
+								}
+							}
+						}
+					})
+				}
+			}
 			if _, ok := Match(Call("sync.WaitGroup).Done", Field("asyncWG", Any())), x); ok {
 				done = in
 				_, doneDeferred = in.(*ssa.Defer)
@@ -339,14 +404,17 @@ func c08Goroutine(c *Ctx, g, handler *ssa.Function) {
 	// Done on every exit: deferred, or every return is dominated by it
 	okDone := done != nil && doneDeferred
 	if done != nil && !doneDeferred {
-		okDone = true
-		for _, b := range g.Blocks {
-			if _, ok := b.Instrs[len(b.Instrs)-1].(*ssa.Return); ok && b.Comment != "recover" {
-				if !(done.Block() == b || done.Block().Dominates(b)) {
-					okDone = false
-				}
+		okDone, _ = allPathsPass(g, func(in ssa.Instruction) bool {
+			ci, ok := in.(ssa.CallInstruction)
+			if !ok {
+				return false
 			}
-		}
+			if _, isDefer := in.(*ssa.Defer); isDefer {
+				return false
+			}
+			_, m := Match(Call("sync.WaitGroup).Done", Field("asyncWG", Any())), c.CallX(ci))
+			return m
+		})
 	}
 	c.Check(okDone, "C08.L2-goroutine-shape", key+" › asyncWG.Done on every exit", g.Pos(),
 		"wait group released on every exit of the goroutine", "some exit of the goroutine does not release the wait group: shutdown hangs")
